@@ -36,6 +36,15 @@ CHECKS = {
  "C22": dict(tech=TECH+"decoder layout extraction (as C21) compared with a specification table frozen in the checker; exploration of Header.Unpack/HeaderLength for both header forms; shape rule for ReadPacket's body slice",
    text="Position faithfulness of every decoded field for every accepted datagram, and the body offset equal to the parsed header size for both header forms whatever the length value.",
    note="Trusted: go/ssa and the transcription of MQTT-SN 1.2 section 5 / doc/auth.md into the checker's table.", ref="4/C22"),
+ "C18": dict(tech=TECH+"dominance (gate) rule on the completion sites, lockset analysis (must-hold locks per instruction + locks held at all call sites) for the timer callback versus Success/Fail and for every timer/state field, path rule 'nothing after completion', publish-before-use rule for AfterFunc timers",
+   text="At-most-once completion, callback-before-Done, no retry after completion on the same path and atomically with respect to Success/Fail, and the race / nil clauses are decided for all schedules because locksets and dominance do not depend on the schedule. The sleep transaction's unsynchronised fields and the exported State/Data fields are known findings.",
+   note="Trusted: go/ssa. Locks are identified per (type, field), not per instance. Accesses on a freshly allocated object inside its constructor are exempt.", ref="4/C18"),
+ "C19": dict(tech=TECH+"path exploration of the retry timer callback and of Proceed over a 5x5 grid of (retries so far, retry count) valuations; origin tracing of every timer duration; lockset for the counter",
+   text="Counting and wiring clauses: callback iff retries so far < retry count, else ErrNoMoreRetries; +1 per expiry; Proceed resets and re-arms once on every path; durations are the constructor's values; a finished transaction's expiry is a no-op. Wall-clock statements are not decided.",
+   note="Trusted: go/ssa. The budget test is a comparison of two cells, so the grid covers every ordering and the off-by-one neighbours.", ref="4/C19"),
+ "C29": dict(tech=TECH+"lockset analysis of every field access of IDSequence and TransactionStore (write vs read lock mode), escape rule for fields and maps, atomic-only rule for ClientState, constant-propagation evaluation of the loop-free Next at its boundary valuations",
+   text="Linearizability of each individual call follows from 'whole body is one critical section on private state' which is decided for all interleavings; Next's arithmetic is additionally evaluated at the boundary valuations (including max = 0xFFFF wrap-around) - not for every value.",
+   note="Trusted: go/ssa, sync and sync/atomic. R4 interprets the SSA of Next abstractly in the checker (uint16 wrap modelled); it does not run the program.", ref="4/C29"),
 }
 
 NA = {
